@@ -1,0 +1,75 @@
+// Copyright The Prometheus Authors
+// Licensed under the Apache License, Version 2.0 (the "License");
+// you may not use this file except in compliance with the License.
+// You may obtain a copy of the License at
+//
+// http://www.apache.org/licenses/LICENSE-2.0
+//
+// Unless required by applicable law or agreed to in writing, software
+// distributed under the License is distributed on an "AS IS" BASIS,
+// WITHOUT WARRANTIES OR CONDITIONS OF ANY KIND, either express or implied.
+// See the License for the specific language governing permissions and
+// limitations under the License.
+
+//go:build verif
+
+package cluster
+
+import (
+	"log/slog"
+
+	"github.com/hashicorp/memberlist"
+	"github.com/prometheus/client_golang/prometheus"
+)
+
+// VerifDelegate exposes the memberlist delegate callbacks of a Peer that has a
+// state registry but no memberlist, so that the receive path (NotifyMsg,
+// MergeRemoteState), LocalState and the gossip queue can be driven directly.
+// It only exists in builds with the `verif` tag and adds no behaviour.
+type VerifDelegate struct {
+	d *delegate
+}
+
+// NewVerifDelegate builds a delegate over the given state registry. numNodes is
+// the cluster size the broadcast queue assumes for its retransmit limit.
+func NewVerifDelegate(states map[string]State, numNodes int, l *slog.Logger) *VerifDelegate {
+	counter := func(name string) *prometheus.CounterVec {
+		return prometheus.NewCounterVec(prometheus.CounterOpts{Name: name}, []string{"msg_type"})
+	}
+	p := &Peer{
+		states: states,
+		stopc:  make(chan struct{}),
+		logger: l,
+	}
+	d := &delegate{
+		Peer:   p,
+		logger: l,
+		bcast: &memberlist.TransmitLimitedQueue{
+			NumNodes:       func() int { return numNodes },
+			RetransmitMult: 1,
+		},
+		messagesReceived:     counter("verif_messages_received_total"),
+		messagesReceivedSize: counter("verif_messages_received_size_total"),
+		messagesSent:         counter("verif_messages_sent_total"),
+		messagesSentSize:     counter("verif_messages_sent_size_total"),
+	}
+	p.delegate = d
+	return &VerifDelegate{d: d}
+}
+
+// NotifyMsg forwards to delegate.NotifyMsg.
+func (v *VerifDelegate) NotifyMsg(b []byte) { v.d.NotifyMsg(b) }
+
+// LocalState forwards to delegate.LocalState.
+func (v *VerifDelegate) LocalState(join bool) []byte { return v.d.LocalState(join) }
+
+// MergeRemoteState forwards to delegate.MergeRemoteState.
+func (v *VerifDelegate) MergeRemoteState(buf []byte, join bool) { v.d.MergeRemoteState(buf, join) }
+
+// GetBroadcasts forwards to delegate.GetBroadcasts.
+func (v *VerifDelegate) GetBroadcasts(overhead, limit int) [][]byte {
+	return v.d.GetBroadcasts(overhead, limit)
+}
+
+// QueueBroadcast enqueues b the way the send function of Peer.AddState does.
+func (v *VerifDelegate) QueueBroadcast(b []byte) { v.d.bcast.QueueBroadcast(simpleBroadcast(b)) }
